@@ -189,7 +189,7 @@ impl StorageData for CrashStorage {
     }
 
     fn write(&mut self, pos: u64, bytes: &[u8]) -> Result<(), DbError> {
-        if CTL.with(|c| c.borrow_mut().before('w')) {
+        if CTL.with(|c| c.borrow_mut().before(if bytes.is_empty() { 'o' } else { 'w' })) {
             return Err(injected());
         }
         self.inner.write(pos, bytes)
